@@ -172,6 +172,9 @@ def _halflife_to_int(halflife):
 
 def _times_to_int_array(times):
     times, _ = _convert_timestamp_to_tz_unaware(times)
+    if isinstance(times, np.ndarray) and times.dtype.kind in "mM":
+        # the halflife is in nanoseconds, whatever the unit of the timestamps (pandas 3 defaults to microseconds)
+        times = times.astype(f"{times.dtype.kind}8[ns]", copy=False)
     return times.view(np.int64)
 
 
